@@ -20,7 +20,7 @@ ASSUMPTIONS = ['port contract as for C02', 'no faults; process-wide attributes (
 
 
 def project(lines):
-    return [l for l in lines if l.startswith(('#', 'tx', 'sleep', 'abort', 'fault', 'bad-op'))]
+    return [l for l in lines if l.startswith(('#', 'tx', 'sleep', 'abort', 'fault', 'bad-op', 'st ', 'obs '))]
 
 
 def cases(rng, tier, X):
